@@ -104,6 +104,34 @@ def run(ctx):
                 z = [r for r in fr if r[0] in ('bytes_read', 'bytes_written')]
                 if not good and any(op == '<=' and b == '0' for a, op, b in z) and any(op == '>=' and b == '0' for a, op, b in z):
                     good = True
+                if not good:
+                    # a guard written as one disjunction `(bytes_written <= 0) || (offset == size)`: every
+                    # disjunct must be transfer evidence
+                    for n_, pol_ in atoms(path_facts(c)):
+                        n0 = strip(n_)
+                        if pol_ and n0.get('kind') == 'BinaryOperator' and n0.get('opcode') == '||':
+                            dis, st_ = [], [n0]
+                            while st_:
+                                y = strip(st_.pop())
+                                if y.get('kind') == 'BinaryOperator' and y.get('opcode') == '||':
+                                    st_.extend(y['inner'])
+                                else:
+                                    dis.append(y)
+                            def _evid(y):
+                                r_ = relation(y, True)
+                                if not r_:
+                                    return any(k in nf(y) for k in ('empty()', 'should_close'))
+                                a_, o_, b_ = nf(r_[0]), r_[1], nf(r_[2])
+                                return (('bytes_read' in a_ or 'bytes_written' in a_) and o_ in ('==', '<=', '<') and b_ == '0') or (o_ == '==' and 'offset' in a_ + b_ and 'size' in a_ + b_)
+                            if dis and all(_evid(y) for y in dis):
+                                good = True
+                if not good:
+                    # the evidence is the result of a local lambda / helper (`!read_block()`): inside it, out of this rule's reach
+                    lam_calls = [n_ for n_, pol_ in atoms(path_facts(c)) for y in walk(n_) if (y.get('kind') == 'CXXOperatorCallExpr' and call_name(y) == 'operator()') or
+                                 (y.get('kind') == 'CallExpr' and callee_decl(y, u) is not None and body_of(callee_decl(y, u)) is not None and call_name(y) not in ('now',))]
+                    if lam_calls:
+                        ctx.undecided(R, '%s|retire#%d' % (lab, i), c, 'the descriptor is retired on the result of a local lambda / helper call (%s): the end-of-stream evidence is inside it' % src_text(lam_calls[0], 50))
+                        continue
                 if not good and not ev:
                     # the guard does not mention a transfer count at all; if it tests the classified result of a repo helper, this rule cannot see the evidence
                     hv = [v for v in walk(lp) if v.get('kind') == 'VarDecl' and kids(v) and any(y.get('kind') == 'CallExpr' and callee_decl(y, u) is not None and body_of(callee_decl(y, u)) is not None for y in walk(v))]
@@ -152,7 +180,10 @@ def run(ctx):
             okc = okc and len(brk) == 1 and any('empty()' in t for t in truthy_facts(brk[0]))
             rets = [r for r in walk(cb) if r.get('kind') == 'ReturnStmt' and enclosing(r, ('LambdaExpr',)) is None]
             okc = okc and all(r['_off'] > dr[0]['_off'] for r in rets)
-        ctx.check(okc, R, 'communicate|post-exit-drain', dr[0] if dr else comm, 'after the child exited, stdout is read until empty before returning', 'communicate has no post-exit drain of stdout: output still in the pipe when the child exits is lost')
+        if not dr and any(s_.get('kind') == 'IfStmt' and 'this.stdout_read_fd' in nf(if_parts(s_)[0]) and any(x.get('kind') in LOOPS and any(y.get('kind') == 'CXXOperatorCallExpr' and call_name(y) == 'operator()' for y in walk(x)) for x in walk(s_)) for s_ in afterc):
+            ctx.undecided(R, 'communicate|post-exit-drain', comm, 'the post-exit drain reads through a local lambda: its loop shape is not the one this rule models')
+        else:
+          ctx.check(okc, R, 'communicate|post-exit-drain', dr[0] if dr else comm, 'after the child exited, stdout is read until empty before returning', 'communicate has no post-exit drain of stdout: output still in the pipe when the child exits is lost')
 
     # ---------------- R4
     with ctx.section('C15-R4', 'C15'):
